@@ -18,7 +18,7 @@ RULE = ("gain vectors of 1..12 entries (log-uniform over 12 decades; classes "
         "the case description")
 RULE += (" Added after the white-box review: total power and noise "
          "optionally x 1e-30..1e20, the scalars optionally as Python ints, "
-         "gain vectors of 33..2048 entries in one case of ten ")
+         "gain vectors of 33..2048 entries in one case of thirty ")
 
 LEVEL_TEXT = ("Generated-input search (Hypothesis, seeded, sharded) over gain "
               "vectors, powers, noise and symbol energies against four "
@@ -77,10 +77,9 @@ def _strategy(tier):
         # when their values are whole numbers
         int_scalars=st.booleans(),
         # a long gain vector (n up to 2048), drawn from a seeded generator
-        long=st.one_of(st.none(), st.none(), st.none(), st.none(), st.none(),
-                       st.none(), st.none(), st.none(), st.none(),
+        long=st.one_of(*([st.none()] * 29 + [
                        st.tuples(st.sampled_from([33, 64, 300, 1100, 2048]),
-                                 seeds).map(list)),
+                                 seeds).map(list)])),
         pt_switch=st.one_of(st.none(), st.none(), st.none(), st.tuples(
             fl(0.0, 1.0), st.integers(-12, -3),
             st.sampled_from([-1, -1, 1, 0])).map(list)),
